@@ -171,7 +171,7 @@ impl Engine for C14 {
     }
     fn runs(&self, tier: Tier) -> u64 {
         match tier {
-            Tier::Quick => 8_000,
+            Tier::Quick => 6_000,
             Tier::Thorough => 400_000,
         }
     }
